@@ -37,11 +37,9 @@ MANIFEST = dict(
 
 GEN = ['GenEquistress']
 REQ = ['From PLgen Require Import GenEquistress.', 'From PL Require Import Stress.C17 Stress.C17Cert.']
-UNFOLD = ['signed_tresca_trace_m', 'signed_tresca_amp_m', 'signed_mises_amp_m', 'abs_max_principal_m', 'sign_amp_m', 'tresca_m',
-          'max_principal_m', 'min_principal_m', 'amax3', 'amin3', 'sign_trace_t', 'mises_t', 'sorted3', 'I1', 'I2', 'I3',
-          'eqs_signed_mises_trace', 'eqa_signed_mises_trace', 'eqs__sign_trace', 'eqa__sign_trace', 'eqs_mises', 'eqa_mises',
-          's11', 's22', 's33', 's12', 's13', 's23']
-EXTRA_TAC = 'c17_prep; try (solve [lra]);'
+UNFOLD = ['sorted3']        # everything else is evaluated by c17_prep (Stress/C17Cert.v) through the proved characterisations
+PRE_TAC = 'c17_prep;'
+EXTRA_TAC = 'try (solve [lra]);'
 
 FUNCS = ['tresca', 'signed_tresca_trace', 'signed_tresca_abs_max_principal', 'abs_max_principal', 'max_principal', 'min_principal',
          'mises', 'signed_mises_trace', 'signed_mises_abs_max_principal']
@@ -436,7 +434,9 @@ INT_RANGE = {'int32': 31, 'int64': 63, 'pyint': 63}
 
 
 def int_overflows(vals, dtype):
-    """Does the integer evaluation of the Mises radicand leave the range of the dtype?  (class of the known finding)"""
+    """Does an integer evaluation of the Mises radicand leave the range of the dtype?  (class of the known finding)
+    Intermediates of both usual forms are considered (expanded: squares, mixed products, running sums; difference form:
+    differences, their squares, running sums), so the class does not depend on which of the two the source uses."""
     a, b, c, d, e, f = [int(x) for x in vals]
     lim = 2 ** INT_RANGE[dtype]
     inter = [a * a, b * b, c * c, d * d, e * e, f * f, a * b, a * c, b * c]
@@ -451,6 +451,8 @@ def int_overflows(vals, dtype):
     inter.append(q)
     q += f * f
     inter += [q, 3 * q, s + 3 * q]
+    u, v, w = a - b, b - c, c - a
+    inter += [u, v, w, u * u, v * v, w * w, u * u + v * v, u * u + v * v + w * w]
     return any(not (-lim <= x < lim) for x in inter)
 
 
@@ -536,13 +538,13 @@ def near_abs(expr, value, tol):
 
 
 def near_expr(expr, other, tol):
-    return 'Rabs (%s - %s) <= %s' % (expr, other, cert.tol_lit(max(tol, 1e-300)))
+    return 'Rabs (%s - %s) <= %s' % (expr, other, cert.tol_lit(max(tol, 1e-30)))
 
 
 def certificates(res, impl, quick):
     rng = res.rng
     E = impl.E
-    n_t = 40 if quick else 300
+    n_t = 32 if quick else 300
     cases = corpus_tensors()[:12] + [gen_tensor(rng, KINDS[i % len(KINDS)]) for i in range(n_t)]
     goals, descr, skipped = [], [], []
     A = cert.app
@@ -635,7 +637,10 @@ def still_fails(impl):
 # ----------------------------------------------------------------------------- run / replay
 
 def run(res):
+    import time
     quick = res.tier == 'quick'
+    t0 = time.time()
+    stage = {}
     classes(res)
     res.trusted += ['py2coq translator + whitelist specs/c17.py (GenEquistress: mises, _sign_trace, signed_mises_trace; scalar and array path)',
                     'hand-written mirror of tresca / max / min / abs_max_principal / _sign_abs_max_principal / signed variants in Stress/C17.v (tied by certificates)',
@@ -651,6 +656,7 @@ def run(res):
                        'separated by > 1e-6 norm, counted distinct by component tuple')
     proofs_ok = common.standard_proof_stage(res, 'C17', extra_targets=['theories/Common/Cert.vo', 'theories/Stress/C17Cert.vo'],
                                             gen_fn=lambda: gen_specs.generate(GEN))
+    stage['proofs'] = round(time.time() - t0, 1)
     impl = Impl()
     cert_nan = []
     gen_ok = not any('A:model regenerates' in b['obligation'] for b in res.broken)
@@ -658,7 +664,7 @@ def run(res):
         try:
             goals, descr, skipped = certificates(res, impl, quick)
             cert_nan = skipped
-            ok, bad, log = cert.run_certs('C17', REQ, UNFOLD, goals, chunk=12 if quick else 30, extra_tac=EXTRA_TAC)
+            ok, bad, log = cert.run_certs('C17', REQ, UNFOLD, goals, chunk=12 if quick else 30, extra_tac=EXTRA_TAC, pre_tac=PRE_TAC)
             oks = set(ok)
             for i in range(len(goals)):
                 res.oblige('certificate %s' % (descr[i],), i in oks, log if i not in oks else '')
@@ -670,7 +676,10 @@ def run(res):
             res.cov['certificate_failed_inputs'] = [descr[i] for i in bad][:20]
         except Exception as e:
             res.oblige('certificates could be generated and run', False, repr(e))
+    stage['certificates'] = round(time.time() - t0 - stage['proofs'], 1)
     cx = impl_relations(res, impl, quick, extra=cert_nan)
+    stage['relations'] = round(time.time() - t0 - stage['proofs'] - stage['certificates'], 1)
+    res.cov['stage_seconds'] = stage
     k = sum(v for kk, v in cx.n.items() if kk in ('definitions', 'rotation', 'scaling', 'columns_rows', 'integer'))
     res.add_cases(k, nontrivial=len(cx.nontrivial))
     res.cov['impl_relation_evaluations'] = dict(cx.n)
